@@ -4,6 +4,7 @@
 #   rel : gcc  -O3 -DNDEBUG            (shipped flags minus LTO; release asserts live)
 #   san : clang -O1 -g -DNDEBUG + ASan/UBSan (alignment,null off, see DESIGN.md section 3)
 #   dbg : gcc  -O1 -g (no NDEBUG: the library's debug asserts are live; diagnostic use only)
+#   cov : gcc  -O0 --coverage (reach measurement only, see checks/coverage.sh)
 # Content-addressed: the library is recompiled whenever any file under /repo/{src,include,codegen}
 # differs from the fingerprint stored with the previous build; the harness whenever sim/ differs.
 set -euo pipefail
@@ -20,6 +21,7 @@ COMMON="-std=c17 -D_POSIX_C_SOURCE=200809L -DCIMBA_VERIF -fno-semantic-interposi
 case "$V" in
   rel) CC=gcc;   CFLAGS="-O3 -DNDEBUG -g1 $COMMON"; LDX="" ;;
   dbg) CC=gcc;   CFLAGS="-O1 -g $COMMON"; LDX="" ;;
+  cov) CC=gcc;   CFLAGS="-O0 -g -DNDEBUG --coverage $COMMON"; LDX="--coverage" ;;
   san) CC=clang; CFLAGS="-O1 -g -DNDEBUG -fno-omit-frame-pointer -fsanitize=address,undefined,float-cast-overflow -fno-sanitize=alignment,null,object-size -fno-sanitize-recover=all $COMMON"; LDX="-fsanitize=address,undefined" ;;
   *) echo "unknown variant $V" >&2; exit 2 ;;
 esac
